@@ -6,7 +6,7 @@ use crate::report::Ctx;
 use rand::Rng;
 
 pub fn run(ctx: &mut Ctx) {
-    let n = if ctx.thorough() { 20 } else { 5 };
+    let n = if ctx.thorough() { 10 } else { 5 };
     let mut worlds = vec![];
     for _ in 0..2 { match world(ctx, false) { Some(w) => worlds.push(w), None => { ctx.broken("cannot build a world"); return; } } }
     for k in 0..n {
